@@ -444,7 +444,7 @@ func (fd *Client) Query(input *dynamodb.QueryInput) (*dynamodb.QueryOutput, erro
 		Aliases:                   aws.StringValueMap(input.ExpressionAttributeNames),
 		Limit:                     aws.Int64Value(input.Limit),
 		ExclusiveStartKey:         mapAttributeValueToTypes(input.ExclusiveStartKey),
-		KeyConditionExpression:    *input.KeyConditionExpression,
+		KeyConditionExpression:    aws.StringValue(input.KeyConditionExpression),
 		FilterExpression:          aws.StringValue(input.FilterExpression),
 		ScanIndexForward:          aws.BoolValue(input.ScanIndexForward),
 	})
